@@ -316,9 +316,20 @@ fn spawn_async_ao_list_in_task<'a, SE: extensions::ShellExtensions>(
     let join_handle = tokio::spawn(async move {
         #[cfg(feature = "verif-hooks")]
         crate::verif::pause("job_start");
-        cloned_ao_list
+        // An error ends the background job, which runs in a shell of its own: it is reported
+        // where it happens and becomes the job's status, instead of surfacing later in
+        // whoever waits for the job.
+        match cloned_ao_list
             .execute(&mut cloned_shell, &cloned_params)
             .await
+        {
+            Ok(result) => Ok(result),
+            Err(err) => {
+                let _ = cloned_shell
+                    .display_error(&mut cloned_params.stderr(&cloned_shell), &err);
+                Ok(err.into_result(&cloned_shell))
+            }
+        }
     });
 
     shell.jobs_mut().add_as_current(jobs::Job::new(
